@@ -14,6 +14,7 @@
   The simulator-specific methods bound by `detect_simulator` are selected by `Fam`.
 -/
 import PyTough.Model.Listing
+import PyTough.Gen.ListingBind
 namespace Model.Listing
 open Py Model
 
@@ -46,6 +47,17 @@ def famOf (sim : Str) : Option Fam :=
   else if sim = "TOUGHREACT".toList then some .toughreact
   else if sim = "TOUGH3".toList then some .tough3
   else none
+
+def Fam.simname : Fam → String
+  | .autough2 => "AUTOUGH2" | .tough2 => "TOUGH2" | .tough2mp => "TOUGH2_MP"
+  | .toughplus => "TOUGH+" | .toughreact => "TOUGHREACT" | .tough3 => "TOUGH3"
+
+/-- the method `detect_simulator` binds to `self.<fname>` for this simulator, read from the table generated from the
+    current source (Gen/ListingBind.lean); `""` when there is none (`getattr` raises AttributeError) -/
+def bound (fam : Fam) (fname : String) : String :=
+  match Gen.ListingBind.binding.lookup fam.simname with
+  | some row => (row.lookup fname).getD ""
+  | none => ""
 
 /-- `self._step`: an int, or `None` when the field holds something else -/
 abbrev Step := Option Int
@@ -276,7 +288,9 @@ def detectSimulator : M Unit := do
     | some sim =>
       if sim.isEmpty then pure ()
       else match famOf sim with
-        | some f => modify fun s => { s with fam := f }
+        | some f =>
+          if Gen.ListingBind.internalFns.any (fun fn => bound f fn == "") then throw (.named "AttributeError")
+          modify fun s => { s with fam := f }
         | none => throw (.named "AttributeError")
 
 def isAutough2 : M Bool := return (← get).fam == .autough2
@@ -285,22 +299,23 @@ def isPlus : M Bool := return (← get).fam == .toughplus
 /-! ### titles and headers -/
 
 def readTitle : M Unit := do
-  match (← get).fam with
-  | .autough2 =>
+  match bound (← get).fam "read_title" with
+  | "read_title_AUTOUGH2" =>
     let l ← readline
     modify fun s => { s with title := strip l }
-  | .tough2mp =>
+  | "read_title_TOUGH2_MP" =>
     seek0
     let _ ← readline
     let l ← readline
     modify fun s => { s with title := strip l }
-  | _ =>
+  | "read_title_TOUGH2" =>
     seek0
     -- while not ('problem title' in line.lower() and ':' in line) or (line == ''): spins at end of file
     let line ← readUntil (fun l => isIn "problem title".toList (lower l) && l.contains ':' && l != []) false
     match findChar line ':' with
     | some c => modify fun s => { s with title := strip (line.drop (c + 1)) }
     | none => modify fun s => { s with title := [] }
+  | _ => throw (.named "AttributeError")
 
 def readHeaderAUTOUGH2 : M Unit := do
   readTitle
@@ -330,7 +345,10 @@ def readHeaderTOUGH2 : M Unit := do
   if strs.length < 4 then skipToNonblank else seek pos
 
 def readHeader : M Unit := do
-  if (← isAutough2) then readHeaderAUTOUGH2 else readHeaderTOUGH2
+  match bound (← get).fam "read_header" with
+  | "read_header_AUTOUGH2" => readHeaderAUTOUGH2
+  | "read_header_TOUGH2" => readHeaderTOUGH2
+  | _ => throw (.named "AttributeError")
 
 /-! ### positions of the result sets -/
 
@@ -402,7 +420,10 @@ def setupPosTOUGH2 : M Unit := do
   loop (n + 1)
 
 def setupPos : M Unit := do
-  if (← isAutough2) then setupPosAUTOUGH2 else setupPosTOUGH2
+  match bound (← get).fam "setup_pos" with
+  | "setup_pos_AUTOUGH2" => setupPosAUTOUGH2
+  | "setup_pos_TOUGH2" => setupPosTOUGH2
+  | _ => throw (.named "AttributeError")
 
 /-! ### table types and the walk from one table to the next -/
 
@@ -453,9 +474,17 @@ def pastThisResult (p : Pos) : C Bool := do
     else return p.no ≥ (s.fullpos[j.toNat]!).no
   else return false
 
+/-- `self.table_type(x)` as bound for this simulator (`x`: the first three header words, or the keyword of an AUTOUGH2 line) -/
+def tableType (x : List Str) : C (Option String) := do
+  match bound (← read).fam "table_type" with
+  | "table_type_AUTOUGH2" => return tableTypeAUTOUGH2 (x.headD [])
+  | "table_type_TOUGH2" => tableTypeTOUGH2 x
+  | "table_type_TOUGHplus" => tableTypePlus x
+  | _ => throw (.named "AttributeError")
+
 def nextTableAUTOUGH2 : C (Option String) := do
   let l ← readline
-  return tableTypeAUTOUGH2 (slice l 1 6)
+  tableType [slice l 1 6]
 
 def nextTableTOUGH2 : C (Option String) := do
   let rec loop : Nat → C (Option String)
@@ -473,7 +502,7 @@ def nextTableTOUGH2 : C (Option String) := do
         loop f
       else
         seek headpos
-        tableTypeTOUGH2 ((splitWs line).take 3)
+        tableType ((splitWs line).take 3)
   loop ((← get).pos.rest.length + 2)
 
 def nextTablePlus : C (Option String) := do
@@ -486,13 +515,14 @@ def nextTablePlus : C (Option String) := do
     let headpos ← tell
     let line ← readline
     seek headpos
-    tableTypePlus ((splitWs (strip line)).take 3)
+    tableType ((splitWs (strip line)).take 3)
 
 def nextTable : C (Option String) := do
-  match (← read).fam with
-  | .autough2 => nextTableAUTOUGH2
-  | .toughplus => nextTablePlus
-  | _ => nextTableTOUGH2
+  match bound (← read).fam "next_table" with
+  | "next_table_AUTOUGH2" => nextTableAUTOUGH2
+  | "next_table_TOUGHplus" => nextTablePlus
+  | "next_table_TOUGH2" => nextTableTOUGH2
+  | _ => throw (.named "AttributeError")
 
 end Cu
 
@@ -699,7 +729,10 @@ def setupTableAUTOUGH2 (tablename : String) : M Unit := do
   else raise .generic
 
 def setupTable (tablename : String) : M Unit := do
-  if (← isAutough2) then setupTableAUTOUGH2 tablename else setupTableTOUGH2 tablename
+  match bound (← get).fam "setup_table" with
+  | "setup_table_AUTOUGH2" => setupTableAUTOUGH2 tablename
+  | "setup_table_TOUGH2" => setupTableTOUGH2 tablename
+  | _ => throw (.named "AttributeError")
 
 /-! ### reading and skipping tables -/
 
@@ -756,10 +789,16 @@ def skipTableTOUGH2 (tablename : String) : M Unit := do
     let _ ← skipto1 chars
 
 def readTable (tablename : String) : M Unit := do
-  if (← isAutough2) then readTableAUTOUGH2 tablename else readTableTOUGH2 tablename
+  match bound (← get).fam "read_table" with
+  | "read_table_AUTOUGH2" => readTableAUTOUGH2 tablename
+  | "read_table_TOUGH2" => readTableTOUGH2 tablename
+  | _ => throw (.named "AttributeError")
 
 def skipTable (tablename : String) : M Unit := do
-  if (← isAutough2) then skipTableAUTOUGH2 tablename else skipTableTOUGH2 tablename
+  match bound (← get).fam "skip_table" with
+  | "skip_table_AUTOUGH2" => skipTableAUTOUGH2 tablename
+  | "skip_table_TOUGH2" => skipTableTOUGH2 tablename
+  | _ => throw (.named "AttributeError")
 
 /-- the loop shared by setup_tables_* and read_tables_*; `act` sets up or reads one table -/
 def tablesLoop (act : String → M Unit) (headerEach : Bool) (countElements : Bool) : Nat → String → Nat → M Unit
@@ -782,34 +821,43 @@ def setupTables : M Unit := do
   match (← get).fullpos[0]? with
   | none => raise .indexError
   | some p0 =>
-    if fam == .autough2 then
+    match bound fam "setup_tables" with
+    | "setup_tables_AUTOUGH2" =>
       seek p0
       tablesLoop act true false fuel "element" 0
-    else
+    | "setup_tables_TOUGH2" =>
       readTitle
       seek p0
       readHeader
-      tablesLoop act false (fam == .toughplus) fuel "element" 0
+      tablesLoop act false false fuel "element" 0
+    | "setup_tables_TOUGHplus" =>
+      readTitle
+      seek p0
+      readHeader
+      tablesLoop act false true fuel "element" 0
+    | _ => throw (.named "AttributeError")
 
 def readTables : M Unit := do
   let fam := (← get).fam
   let fuel := (← get).pos.rest.length + 2
-  if fam == .autough2 then
+  match bound fam "read_tables" with
+  | "read_tables_AUTOUGH2" =>
     let act (tn : String) : M Unit := do
       if (← get).skipTables.contains tn then skipTable tn else readTable tn
     tablesLoop act true false fuel "element" 0
-  else if fam == .toughplus then
+  | "read_tables_TOUGHplus" =>
     readHeader
     let act (tn : String) : M Unit := do
       if (← get).skipTables.contains tn then skipTable tn else readTable tn
     tablesLoop act false true fuel "element" 0
-  else
+  | "read_tables_TOUGH2" =>
     readHeader
     let act (tn : String) : M Unit := do
       if (← get).skipTables.contains tn then skipTable tn
       else if (← hasTable tn) then readTable tn
       else skipTable tn                      -- a table not present at the first result time
     tablesLoop act false false fuel "element" 0
+  | _ => throw (.named "AttributeError")
 
 /-! ### short output (AUTOUGH2) -/
 
